@@ -520,6 +520,23 @@ func (env *Env) call(x *SCall) Value {
 	case "allocated":
 		v := env.eval(x.Args[0])
 		return boolVal(And(Gt(v.L[0], I(0)), Lt(v.L[0], env.st.hwm)))
+	case "mapHas":
+		// mapHas(m, k): the map m currently holds an entry for the abstract key k (an int: an
+		// integer key itself, skey(s) of a string key, or a spec function naming it)
+		mv := env.eval(x.Args[0])
+		if _, isMap := mv.Typ.Underlying().(*types.Map); !isMap {
+			env.fail("mapHas: map expected, got %v", mv.Typ)
+		}
+		k := env.evalI(x.Args[1])
+		ver := Select(env.st.heapArr("M_content", SArr), mv.L[0])
+		return boolVal(env.st.mhas(ver, k))
+	case "skey":
+		sv := env.eval(x.Args[0])
+		k, ok := env.enc.mapKey(sv)
+		if !ok {
+			env.fail("skey: string (or integer) expected")
+		}
+		return intVal(k)
 	case "nobyte":
 		// nobyte(s, c, a, b): byte c does not occur in s[a:b). Stated over absolute positions of
 		// the underlying bytes, so that the fact carries over between a string and its substrings.
@@ -604,8 +621,7 @@ func (env *Env) call(x *SCall) Value {
 		// implements(ifaceValue, InterfaceType): the comma-ok type assertion would succeed
 		a := env.eval(x.Args[0])
 		t := env.resolveType(strings.ReplaceAll(typeExprString(x.Args[1]), " ", ""))
-		fn := "impl_" + typeKey(t)
-		env.enc.declareFun(fn, []string{"Int"}, "Bool")
+		fn := env.enc.implPred(t)
 		return boolVal(And(Not(Eq(a.L[0], I(0))), app(SBool, fn, a.L[0])))
 	case "bound":
 		// bound(x): the local variable x exists at this program point
